@@ -88,7 +88,7 @@ def idiom_model(cases, name="c22_idiom"):
 
 PROFILES = {
     # the constructs whose SystemVerilog spelling is also Veryl (carried verbatim by the translator)
-    "core": dict(tern=False, cast=True, xz_lit=False, pow=False, max_depth=3),
+    "core": dict(tern=False, cast=False, xz_lit=False, pow=False, max_depth=3),
     # one construct outside the carried set each, to (re)confirm the recorded findings
     "ternary": dict(tern=True, cast=False, xz_lit=False, pow=False, max_depth=2),
 }
@@ -142,9 +142,44 @@ def strip_construct(m, allow):
     return {"decls": m["decls"], "items": items, "order": m["order"]}
 
 
+ONE = ("lit", 1, False, 1, 0)
+
+
+def single(stmts):
+    """a statement list as ONE statement: `if (1'h1) begin <all> end else begin <all> end`"""
+    if len(stmts) == 1:
+        return stmts
+    return [("if", ONE, list(stmts), list(stmts))]
+
+
+def normalize(m, allow):
+    """keep the program inside the shapes the translator carries (see KNOWN_FINDINGS for the others):
+    an always_comb body and every case arm is exactly one statement"""
+    def ws(s):
+        k = s[0]
+        if k == "if":
+            return ("if", s[1], [ws(x) for x in s[2]], [ws(x) for x in s[3]])
+        if k == "case":
+            arms = [(pats, single([ws(x) for x in body]) if "case-block" not in allow else [ws(x) for x in body])
+                    for pats, body in s[2]]
+            dflt = [ws(x) for x in s[3]]
+            return ("case", s[1], arms, single(dflt) if "case-block" not in allow else dflt)
+        return s
+    items = []
+    for it in m["items"]:
+        if it[0] == "comb":
+            body = [ws(s) for s in it[1]]
+            items.append(("comb", single(body) if "comb-block" not in allow else body))
+        elif it[0] == "ff":
+            items.append(("ff", None if it[1] is None else [ws(s) for s in it[1]], [ws(s) for s in it[2]]))
+        else:
+            items.append(it)
+    return {"decls": m["decls"], "items": items, "order": m["order"]}
+
+
 def make_case(rng, profile, allow, cycles):
     m, st, stim = S.gen_case(rng, cycles=cycles, profile=PROFILES[profile], params=True)
-    m = strip_construct(m, allow)
+    m = normalize(strip_construct(m, allow), allow)
     return m, st, stim
 
 
